@@ -163,7 +163,7 @@ def _mutation(ck: Check, repo: Repo) -> None:
     am = repo.fn("agilerl.hpo.mutation", "Mutations.architecture_mutate")
     cfg = CFG(am.node)
     calls = [c for c in calls_in(am.node) if call_name(c) == "self._reinit_bandit_grads"]
-    ck.floor("C19.3", len(calls), 2, "_reinit_bandit_grads calls in architecture_mutate (policy and other eval networks)")
+    ck.floor("C19.3", len(calls), 2, "_reinit_bandit_grads calls in architecture_mutate (policy and other eval networks)", fn=am)
     for c in calls:
         n = cfg.node_of(c)
         gs = [(ast.unparse(g), pol) for g, pol, _ in cfg.guards_at(n)]
